@@ -55,7 +55,7 @@ def r1_signature(ctx):
     ctx.check(not leaks, "C11.R1", "src/components/selection", "no-leak-or-transmute", "leak/transmute in %s" % sorted({f.key for f, t in leaks}))
 
 
-def r2_driver(ctx):
+def r2_driver(ctx, fn=None, rule="C11.R2"):
     """the driver on the REAL population stack (Populations methods inlined over c04's stack model): with 0..2 other
     populations underneath, select() is handed the top population, the picked members are cloned in order into exactly
     one new population on top, everything underneath and the source stay as they were, and a failing select() leaves
@@ -64,7 +64,9 @@ def r2_driver(ctx):
     F = ctx.facts
     POP = "mahf::state::common::Populations"
     sf = F.field_index(POP, "stack")
-    fn = F.fn(SEL + "selection")
+    delegated = fn is None
+    fn = fn or F.fn(SEL + "selection")
+    called = []
     bad = []
     n = 0
     import statemodel
@@ -76,6 +78,7 @@ def r2_driver(ctx):
         for pick in picks:
             for outcome in ("ok", "err"):
                 def sel(interp, env, f, args, pick=pick, outcome=outcome):
+                    called.append(1)
                     src = load(interp, env, args[1])
                     interp.mstate["select_from"] = (getattr(src, "vid", repr(src)), getattr(src, "lo", None), getattr(src, "hi", None))
                     if outcome == "err":
@@ -91,6 +94,7 @@ def r2_driver(ctx):
                 table = {SELT + "::select": sel}
                 it = install(Interp(fn.body, chain(mk_oracle(table), store, StackModel(sf), coll_oracle, std_oracle), [Sym("component"), Sym("problem"), Sym("state")], facts=F,
                                     inline=lambda k: k.startswith(POP + "::") or INL(k) or statemodel.inline(k), max_visits=10))
+                it.never_inline = lambda k_: k_.endswith(" as " + SELT + ">::select")      # (the operator is answered by the scenario)
                 src_pop = tuple(c07.ind(i) for i in range(size))
                 heap = {"cur": src_pop}
                 for j, bname in enumerate(below):
@@ -133,16 +137,54 @@ def r2_driver(ctx):
                     intact = all(isinstance(x, Agg) and c07.otag(x) and getattr(x.fields[0], "tag", "") == "s:" + c07.otag(x)[2:] for x in items)
                     if got != want or not intact:
                         bad.append(ctxs + ("pushes %s, expected exact copies of the selected members %s" % (got, want),))
-    ctx.check(not bad, "C11.R2", fn.key, "copies-selected-members-once",
+    if not delegated and not called:
+        # the operator's execute() neither calls the driver nor its own select(): driver and select are both written out in it.
+        # It must then leave exactly what the driver leaves when it runs this operator's REAL select() - compared on the same stacks
+        bad = []
+        cmp_n = 0
+        adt_ = fn.impl_self_adt
+        for below, owner in (((), 0), (("b0",), 0), (("b0",), 1)):
+            for size in range(0, 4):
+                outs = []
+                for body_fn in (fn, F.fn(SEL + "selection")):
+                    cells, popsym, _sf = statemodel.stack_and_rng(F, owner)
+                    store = statemodel.Store(F, levels=2, auto=statemodel.by_prefix(F, cells))
+                    def real_select(interp, env, f, args):
+                        outs_ = interp.call_body(F.fn("<%s as %s>::select" % (adt_, SELT)), list(args))
+                        if len(outs_) == 1 and outs_[0][2] == "return":
+                            interp.mstate.clear()
+                            interp.mstate.update(outs_[0][3])
+                            return outs_[0][0]
+                        return TOP
+                    it = install(Interp(body_fn.body, chain(mk_oracle({SELT + "::select": real_select}), store, StackModel(sf), coll_oracle, std_oracle), [Sym("self"), Sym("problem"), Sym("state")], facts=F,
+                                        inline=lambda k: k.startswith(POP + "::") or INL(k) or statemodel.inline(k) or k == "<%s as %s>::select" % (adt_, SELT), max_visits=12))
+                    it.dispatch = True
+                    heap = {"cur": tuple(c07.ind(i) for i in range(size))}
+                    for j, bname in enumerate(below):
+                        heap[bname] = tuple(c07.ind(10 * (j + 1) + i) for i in range(2))
+                    it.init_state = {"stack": tuple(Vec(bname) for bname in below) + (Vec("cur"),), "heap": heap, "next_vec": 0}
+                    store.install(it)
+                    res = set()
+                    for p in it.run():
+                        st = list(p.mstate.get("stack", ()))
+                        pops = tuple(tuple(c07.otag(x) if isinstance(x, Agg) else repr(x) for x in heap_get_path(p, v)) for v in st)
+                        held = tuple(sorted((ty.split("<")[0], tuple(store.holders(p, ty))) for ty in store.types()))
+                        res.add((p.end, p.ret.variant if isinstance(p.ret, Agg) else repr(p.ret), pops, held))
+                    outs.append(res)
+                cmp_n += 1
+                undecided = any(any("TOP" in repr(x) for x in r) for r in outs)
+                if outs[0] != outs[1] or undecided or not outs[0]:
+                    bad.append(("%d with %d other population(s) underneath" % (size, len(below)), [], "written out",
+                                "leaves %s; the driver running this operator's select() leaves %s" % (sorted(outs[0], key=repr)[:2], sorted(outs[1], key=repr)[:2])))
+        n = cmp_n
+    ctx.check(not bad, rule, fn.key, "copies-selected-members-once",
               "source of %s, select() picking members %s (%s): the driver %s" % (bad[0] if bad else ("", "", "", "")), detail="%d scenarios" % n, loc=fn.loc())
     ctx.count("driver_scenarios", n)
+    if not delegated:
+        return
     impls = [f for f in F.all_fns if f.impl_trait == SELT and f.name == "select"]
     ctx.floor("C11.R2", "Selection implementations", len(impls), 14)
-    for f in impls:
-        ex = F.fn_opt("<%s as mahf::components::Component>::execute" % f.impl_self_adt)
-        r = ex.body.expr_of_local(0) if ex else None
-        good = ex is not None and r[0] == "call" and r[1] == SEL + "selection" and len(list(ex.body.calls())) == 1
-        ctx.check(good, "C11.R2", f.impl_self_adt, "executes-through-driver", "execute() is not exactly selection(self, problem, state)", loc=(ex or f).loc())
+    # (that every operator executes through this driver - or through code that behaves like it - is C11.DRV)
 
 
 def heap_get_path(p, v):
@@ -286,8 +328,13 @@ def r4_fitness_pressure(ctx):
                         captured.append(items)
                         from collmodel import new_vec
                         return ok(new_vec(interp, []))
+                    def wnew_(interp, env, f, args):
+                        # the wheel built directly (`WeightedIndex::new(weights)` in the operator itself): the same weights
+                        captured.append(iter_vals(interp, env, load(interp, env, args[0])))
+                        return ok(Sym("wheel"))
                     cnt += 1
-                    paths = run_select(F, fn, Sym("self", dict(fields)), n, order, {FU + "reverse_rank": rr, FU + "sample_population_weighted": spw})
+                    paths = run_select(F, fn, Sym("self", dict(fields)), n, order, {FU + "reverse_rank": rr, FU + "sample_population_weighted": spw,
+                                                                                     "rand::distributions::weighted_index::WeightedIndex::new": wnew_})
                     if not captured or any(c is None for c in captured):
                         bad.append((ranks, base, "hands weights to the sampler that the analysis cannot read (%s)" % captured))
                         continue
